@@ -169,9 +169,9 @@ def run(prop, tier):
     ncli = cli_runs(res, 3 if tier == "quick" else 3)
     res.coverage.update(
         {
-            "evaluations": agg["runs"] + n + ncli,
+            "evaluations": agg["steps"] + n + ncli,
             "distinct_nontrivial": agg["changed_steps"] + outcomes.get("rejected", 0),
-            "rule": "evaluations = instrumented full-rule-set fix runs (every rule's analyze/fix on every file: %d rule steps) + corrupted inputs through apply_rules under a %d s alarm + CLI runs; non-trivial = rule steps that changed the file + corrupted inputs that were rejected" % (agg["steps"], ALARM_S),
+            "rule": "evaluations = rule steps (one rule's analyze/fix on one file inside %d instrumented full-rule-set fix runs) + corrupted inputs through apply_rules under a %d s alarm + CLI runs; non-trivial = rule steps that changed the file + corrupted inputs that were rejected" % (agg["runs"], ALARM_S),
             "samples": [{"corrupted": os.path.basename(j[0]), "seed": j[1]} for j in jobs[:3]],
             "rule_steps": agg["steps"],
             "corrupted_outcomes": outcomes,
